@@ -2,7 +2,7 @@
    Statements only.  H x W is the root surface (backing vector of at least
    H*W elements); a chain is any finite list of view(rows, cols) / transpose
    operations with arbitrary signed, inclusive/exclusive/open selectors.
-   Counted: the 10 Theorems.  Audited, not counted: Lemma
+   Counted: the 12 Theorems.  Audited, not counted: Lemma
    C07_insert_index_at_or_beyond_usize_max, Example C07_example.
    Restricted domain: root height, width <= i64::MAX where a chain is built
    (C07_chain_denotes_window, C07_is_empty); the other theorems hold for every
@@ -70,6 +70,32 @@ Proof.
   - exact (mut_offsets_spec H W sh w data Hrep Hlen).
   - exact (mut_offsets_safe H W sh w data Hrep Hlen).
 Qed.
+
+(* the iterator as a state machine: after any sequence of next / nth calls an iterator is at some index k
+   (k = number of items passed over).  There it yields the k-th cell of the window in row-major order
+   (nothing from height*width on), reports that cell's position ((height, 0) at the end), and the mutable
+   iterator hands out the reference to exactly that cell *)
+Theorem C07_iterator_at_index : forall (A : Type) (H W : nat) (sh : shape) (w : window) (data : list A) (k : nat),
+  Rep H W sh w -> H * W <= length data ->
+  let ps := positions (sh_height sh) (sh_width sh) in
+  iter_at sh data k = match nth_error ps k with
+                      | Some p => nth_error data (offset sh (fst p) (snd p))
+                      | None => None
+                      end /\
+  iter_position sh k = nth k ps (sh_height sh, 0) /\
+  mut_at sh (length data) k = option_map (fun p => offset sh (fst p) (snd p)) (nth_error ps k).
+Proof. intros A H W sh w data k Hrep Hlen. exact (iterator_at_index H W sh w data Hrep Hlen k). Qed.
+
+(* with_position() on an iterator that has already passed over k items (every k): the position iterator
+   yields exactly the cells k, k+1, .. of the window, each once, in row-major order, each with its own
+   position; for iter_mut the references handed out are those of exactly these cells *)
+Theorem C07_with_position_continues : forall (A : Type) (H W : nat) (sh : shape) (w : window) (data : list A) (k : nat),
+  Rep H W sh w -> H * W <= length data ->
+  let rest := skipn k (positions (sh_height sh) (sh_width sh)) in
+  map (fun e => (fst e, Some (snd e))) (pos_iter_after sh data k) =
+    map (fun p => (p, nth_error data (offset sh (fst p) (snd p)))) rest /\
+  mut_pos_after sh (length data) k = map (fun p => (p, offset sh (fst p) (snd p))) rest.
+Proof. intros A H W sh w data k Hrep Hlen. exact (with_position_continues H W sh w data Hrep Hlen k). Qed.
 
 (* is_empty (start >= end) says exactly "the window has no cell", for every chain-built shape *)
 Theorem C07_is_empty : forall (H W : nat) (ops : list vop),
